@@ -368,6 +368,14 @@ func (x *Exec) initialState() *State {
 			env := x.entryEnv(st)
 			x.curPos = fmt.Sprintf("%s:%d", c.File, c.Line)
 			x.emit(st, "lemma", c.Label, x.evalBool(env, c.E, c), c.Src)
+			// vacuity: the hypothesis of "forall v :: H ==> C" must be satisfiable together with the background
+			if q, ok := c.E.(*EQuant); ok && q.Forall {
+				if imp, ok := q.Body.(*EBinary); ok && imp.Op == "==>" {
+					st2 := st.clone()
+					st2.Assume(x.evalBool(x.entryEnv(st2), &EQuant{Forall: false, Vars: q.Vars, Body: imp.X}, c))
+					x.emitSmoke(st2, "lemma hypothesis "+c.Label)
+				}
+			}
 		}
 		if len(x.FC.Lemmas) > 0 {
 			x.emitSmoke(st, "lemma background")
